@@ -216,14 +216,26 @@ func hostileTargets(depth int, rng *rand.Rand, rev int) []hTarget {
 			} else {
 				panic("hostile: payload of " + k.Name() + " is not the tail of its block")
 			}
+			nrun := 0
 			typedRun := func(data []byte) hOutcome {
 				t := k.New()
 				var blk proto.Block
+				nrun++
+				if nrun%2 == 0 {
+					// every other input goes into a target that holds the rows of an earlier, valid block
+					var b0 proto.Block
+					if err := b0.DecodeBlock(proto.NewReader(bytes.NewReader(base)), rev, proto.Results{{Name: "c", Data: t.Column()}}); err != nil {
+						return hOutcome{inconsistent: "the valid block is refused: " + err.Error()}
+					}
+				}
 				r := proto.NewReader(bytes.NewReader(data))
 				if err := blk.DecodeBlock(r, rev, proto.Results{{Name: "c", Data: t.Column()}}); err != nil {
 					return hOutcome{err: err.Error()}
 				}
 				out := hOutcome{rows: blk.Rows}
+				if blk.Columns == 0 {
+					return out // a block without columns (the end marker) says nothing about the target
+				}
 				if t.Column().Rows() != blk.Rows {
 					out.inconsistent = fmt.Sprintf("the block has %d rows, the column reports %d", blk.Rows, t.Column().Rows())
 					return out
